@@ -34,9 +34,10 @@ BASE = {
     "chunk": 40000,
     "signature": signature,
     "nontrivial": nontrivial,
-    "rule": "behaviours = for each (prefix, limit) configuration of the generator EVERY non-empty suffix over {_, a} (quick; {_, a, -} "
-            "thorough) up to limit+2 characters, named by the real GetLengthLimitedID and again in reverse order by "
-            "EndpointChainName in one name space; seeded traces per dataplane (iptables limit 28, nftables limit 256): "
+    "rule": "behaviours = for each prefix of the generator EVERY identity head+filler+tail (head 0-2, tail 0-3 characters over "
+            "{_, a} (quick; {_, a, -} thorough), 12 filler characters, limit = len(prefix)+15: lengths on both sides of the limit, "
+            "marker-led or not, 14 characters left for the hash), named by the real GetLengthLimitedID and again in reverse order "
+            "by EndpointChainName in one name space; seeded traces per dataplane (iptables limit 28, nftables limit 256): "
             "PolicyChainName for all 7 policy kinds x namespaces x name lengths around the limit (common stems and random names), "
             "ProfileChainName (plain, kns.-style, marker-led), EndpointChainName for 8 chain prefixes x interface names, "
             "identities spelling the tail of names already produced (an identity that looks like a shortened name), "
@@ -79,7 +80,7 @@ def run(ctx):
         design.append(dict(D, module="MC_Names", cfg="MC_Names_long.cfg"))
     P = dict(BASE, design=design,
              gen={"module": "Gen_Names", "cfg": "Gen_q.cfg", "thorough_cfg": "Gen_t.cfg", "workers": 1},
-             n_random=(1, 10))
+             n_random=(1, 8))
     if SKIP_NFT_LONG:
         P["driver"] = {"cmd": "names", "env": {"VERIF_C37_SKIP_NFT_LONG": "1"}}
         ctx.notes["nft_long_identities"] = "SKIPPED (VERIF_C37_SKIP_NFT_LONG=1)"
